@@ -592,3 +592,20 @@ mod tests {
         ));
     }
 }
+
+/// Serve one connection of the HTTP API over any byte stream (what `listener_loop` does
+/// for each accepted socket), so that a simulation can own the transport.
+#[cfg(xs_verif)]
+pub async fn verif_serve_io<I>(io: I, store: Store, engine: nu::Engine) -> Result<(), String>
+where
+    I: tokio::io::AsyncRead + tokio::io::AsyncWrite + Unpin + Send + 'static,
+{
+    let io = TokioIo::new(io);
+    http1::Builder::new()
+        .serve_connection(
+            io,
+            service_fn(move |req| handle(store.clone(), engine.clone(), req)),
+        )
+        .await
+        .map_err(|e| format!("{:?}", e))
+}
